@@ -281,13 +281,17 @@ static void GC_Rem_Ptr(struct GC* gc, var ptr) {
   
 }
 
-static void GC_Mark_Item(void* _gc, void* ptr);
+static bool GC_Mark_Item(void* _gc, void* ptr);
 static void GC_Recurse(struct GC* gc, var ptr);
 
 static void GC_Mark_And_Recurse(void* _gc, void* ptr) {
   struct GC* gc = _gc;
-  GC_Mark_Item(gc, ptr);
-  GC_Recurse(gc, ptr);
+  /* A registered object is recursed into when it is first marked.
+  ** Only objects the collector does not know (embedded or raw) are
+  ** scanned here, otherwise cycles would never terminate. */
+  if (not GC_Mark_Item(gc, ptr)) {
+    GC_Recurse(gc, ptr);
+  }
 }
 
 static void GC_Recurse(struct GC* gc, var ptr) {
@@ -314,12 +318,13 @@ static void GC_Recurse(struct GC* gc, var ptr) {
 
 static void GC_Print(struct GC* gc);
 
-static void GC_Mark_Item(void* _gc, void* ptr) {
+/* Returns true if `ptr` is an object registered with the collector */
+static bool GC_Mark_Item(void* _gc, void* ptr) {
   struct GC* gc = _gc;
   uintptr_t pval = (uintptr_t)ptr;
   if (pval % sizeof(var) isnt 0
   or  pval < gc->minptr
-  or  pval > gc->maxptr) { return; }
+  or  pval > gc->maxptr) { return false; }
   
   uint64_t i = GC_Hash(ptr) % gc->nslots;
   uint64_t j = 0;
@@ -328,12 +333,14 @@ static void GC_Mark_Item(void* _gc, void* ptr) {
     
     uint64_t h = gc->entries[i].hash;
     
-    if (h is 0 or j > GC_Probe(gc, i, h)) { return; }
+    if (h is 0 or j > GC_Probe(gc, i, h)) { return false; }
     
-    if (gc->entries[i].ptr is ptr and not gc->entries[i].marked) {
-      gc->entries[i].marked = true;
-      GC_Recurse(gc, gc->entries[i].ptr);
-      return;
+    if (gc->entries[i].ptr is ptr) {
+      if (not gc->entries[i].marked) {
+        gc->entries[i].marked = true;
+        GC_Recurse(gc, gc->entries[i].ptr);
+      }
+      return true;
     }
     
     i = (i+1) % gc->nslots; j++;
